@@ -18,7 +18,7 @@ DEFAULT_FEATURES = {
     # ---- constructs bound to known findings / outside the clean zone (off by default) ----
     "for_continue": True,       # fixed in the VM (was: hang); `continue` inside `for` (VM)
     "logic_effect": True,       # fixed in the VM (was: both operands evaluated); and/or with an effectful right operand (VM)
-    "block_shadow": False,       # inner let shadowing an outer name
+    "block_shadow": True,  # fixed in the evaluator (was: inner let leaked out of its block) inner let shadowing an outer name
     "enum_print": True,         # fixed in the VM (was: enum(N)); printing an enum value
     "min_builtin": False,        # (min a b) on the VM
     "charclass_vm": True,        # fixed (was: wrong results on the VM) is_alpha / is_alnum / is_whitespace / is_upper / is_lower on the VM
@@ -36,17 +36,17 @@ DEFAULT_FEATURES = {
     "multi_effect_args": False,  # more than one order-sensitive operand or argument in one list (native evaluates right-to-left)
     "abs_effect_arg": False,     # (abs e) / (min a b) / (max a b) evaluate their arguments twice natively: effects duplicated
     "tuple_param": False,        # tuple-typed parameter: cc fails (unknown type name Tuple_...)
-    "fnvalue_copy": False,       # let f2: fn.. = <fn-typed variable>: nanoc's evaluator double-frees
+    "fnvalue_copy": True,  # fixed (was: evaluator double free) let f2: fn.. = <fn-typed variable>
     "neg_const_global": True,  # fixed (was: transpiled to --1) (- g) with a negative constant global
     "fnvalue_let_nested": False, # let of a function type inside a nested block: cc fails (unknown type name FnType_N)
     "match_expr_nested": False,  # match expression anywhere but directly as the returned value: transpiler types it as the function's return type
     "zero_arg_fnvalue": False,   # (p) with p a zero-parameter function value is not a call
-    "self_assign": False,        # set s <expr that can evaluate to s itself, e.g. s or (cond (c s) ..)> on a string: nanoc's evaluator frees it (garbage / crash)
+    "self_assign": True,  # fixed (was: evaluator freed it) set s <expr that can evaluate to s itself>
     "break_in_match": True,  # fixed (was: natively it only left the C switch) break inside a match arm inside a loop
     "void_bare_return": True,    # fixed in the VM (was: a void function with a bare return in a nested block ran off its end)
     "array_literal_effect": False,  # effectful element in an array literal: nanoc's evaluator evaluates the first element twice (and native right-to-left)
-    "string_field_direct": False,   # a struct's string field used directly as a let/set value: nanoc's evaluator frees it (garbage / crash)
-    "aggregate_string_alias": False,  # a string variable stored (uncopied) into a struct/union/tuple/array field and reassigned later: nanoc's evaluator leaves the field dangling
+    "string_field_direct": True,  # fixed (was: evaluator freed it) a struct's string field used directly as a let/set value
+    "aggregate_string_alias": True,  # fixed (was: evaluator left the field dangling) a string variable stored into an aggregate and reassigned later
     "block_shadow_selfref": False,  # inner `let x = f(x)` shadowing an outer x: natively the initialiser reads the new, uninitialised x
     "block_shadow_mut_mismatch": False,  # inner immutable `let x` shadowing a mutable outer x: the type checker then rejects `set x` after the block
     "tuple_index_of_call": False,  # (f x).0 : the type checker cannot type a tuple index applied to a call result (valid program rejected)
